@@ -150,17 +150,15 @@ func runInject(c InjectCase, fx string) (coq string, code int, tags []string) {
 	opsCoq := make([]string, 0, len(c.Ops))
 
 	waitIdle := func() {
+		deadline := time.Now().Add(3 * time.Second)
 		for {
-			select {
-			case <-ab.idle:
-				if ab.drained() {
-					return
-				}
-			case <-m.Closed():
+			if isClosedCh(m.Closed()) || ab.readerIdle() {
 				return
-			case <-time.After(3 * time.Second):
+			}
+			if time.Now().After(deadline) {
 				panic("inject: reader did not become idle")
 			}
+			time.Sleep(20 * time.Microsecond)
 		}
 	}
 
@@ -168,10 +166,6 @@ func runInject(c InjectCase, fx string) (coq string, code int, tags []string) {
 		tags = append(tags, "iop:"+o.K)
 		switch o.K {
 		case "F":
-			select {
-			case <-ab.idle:
-			default:
-			}
 			ab.write(encodeFrame(*o.F))
 			waitIdle()
 			opsCoq = append(opsCoq, "IFrame ("+frameCoq(*o.F)+")")
@@ -217,10 +211,12 @@ func runInject(c InjectCase, fx string) (coq string, code int, tags []string) {
 			actx, acancel := context.WithTimeout(ctx, 40*time.Millisecond)
 			s, err := m.AcceptStream(actx)
 			acancel()
+			got := uint64(0)
 			if err == nil {
-				streams[streamID(s)] = s
+				got = streamID(s)
+				streams[got] = s
 			}
-			opsCoq = append(opsCoq, "IAccept")
+			opsCoq = append(opsCoq, fmt.Sprintf("IAccept %d", got))
 		case "R":
 			if s := streams[o.I]; s != nil {
 				s.SetReadDeadline(time.Now().Add(12 * time.Millisecond))
